@@ -24,7 +24,7 @@ func perFuncLog(calls []CallRec) string {
 				continue
 			}
 			if first {
-				b.WriteString(funcNames[f] + ":")
+				b.WriteString(callName(f, c.Variant) + ":")
 				first = false
 			}
 			if c.Fail {
@@ -62,7 +62,7 @@ type c14Expect struct {
 
 // modelFunctions is the 40-line protocol model: it applies the function chain to the
 // values V selected by the prefix.
-func modelFunctions(V []interface{}, single bool, funcs []int, faults [nFuncs]uint64) c14Expect {
+func modelFunctions(V []interface{}, single bool, funcs []int, faults [nFuncs]uint64, variant int) c14Expect {
 	var e c14Expect
 	list := V
 	var count [nFuncs]int
@@ -70,7 +70,7 @@ func modelFunctions(V []interface{}, single bool, funcs []int, faults [nFuncs]ui
 		i := count[f]
 		count[f]++
 		fail := i < 64 && faults[f]&(1<<uint(i)) != 0
-		e.calls = append(e.calls, CallRec{Func: f, Arg: canon(arg), Fail: fail})
+		e.calls = append(e.calls, CallRec{Func: f, Variant: variant, Arg: canon(arg), Fail: fail})
 		if fail {
 			e.failedFn = append(e.failedFn, funcNames[f])
 		}
@@ -85,7 +85,7 @@ func modelFunctions(V []interface{}, single bool, funcs []int, faults [nFuncs]ui
 			for _, v := range list {
 				if call(f, v) {
 					if f == fTag {
-						next = append(next, map[string]interface{}{"tag": v})
+						next = append(next, tagOf(v, variant))
 					} else {
 						next = append(next, v)
 					}
@@ -107,7 +107,7 @@ func modelFunctions(V []interface{}, single bool, funcs []int, faults [nFuncs]ui
 		var r interface{}
 		switch f {
 		case fCnt, fYA:
-			r = float64(len(arg))
+			r = countOf(len(arg), variant)
 		case fFirst:
 			if len(arg) > 0 {
 				r = arg[0]
@@ -156,7 +156,7 @@ func runC14() *RunResult {
 	w := &World{prop: "C14"}
 	dg := docGen{useNumber: chance(25)}
 	trap := chance(20)
-	cfg := CfgSpec{Present: true, Funcs: 1<<nFuncs - 1, Accessor: chance(40)}
+	cfg := CfgSpec{Present: true, Funcs: 1<<nFuncs - 1, Accessor: chance(40), Variant: rn(3)}
 	if chance(30) {
 		cfg.Funcs = uint32(rn(1<<nFuncs)) | 1<<uint(rn(nFuncs))
 	}
@@ -195,7 +195,7 @@ func runC14() *RunResult {
 	_ = ref
 
 	// fault plans
-	free := modelFunctions(V, p.SingleValued, fl, [nFuncs]uint64{})
+	free := modelFunctions(V, p.SingleValued, fl, [nFuncs]uint64{}, cfg.Variant)
 	n := len(free.calls)
 	var plans [][nFuncs]uint64
 	exhaustive := false
@@ -241,7 +241,7 @@ func runC14() *RunResult {
 	}
 	for i, f := range plans {
 		f := f
-		exp := modelFunctions(V, p.SingleValued, fl, f)
+		exp := modelFunctions(V, p.SingleValued, fl, f, cfg.Variant)
 		o := &Op{Kind: opCustom, Path: p, Cfg: cfg, Faults: f}
 		o.Do = func(t *Task, o *Op) {
 			res, out := safeCall(shared.Fn, doc.Val)
